@@ -17,6 +17,7 @@ var fpSeed = maphash.MakeSeed()
 
 type fpWalker struct {
 	lax     bool // nil and empty maps/slices hash alike (used to recognise "holds no data yet")
+	toCap   bool // slices of pointer-free elements are hashed up to their capacity (arena-owned memory)
 	h       maphash.Hash
 	visited map[visitKey]bool
 	bytes   int64
@@ -88,11 +89,15 @@ func (w *fpWalker) walk(v reflect.Value) {
 			}
 			return
 		}
-		if v.Len() == 0 {
+		if v.Len() == 0 && !(w.toCap && v.Cap() > 0 && !hasPointers(t.Elem())) {
 			return
 		}
 		if !hasPointers(t.Elem()) {
-			w.raw(unsafe.Pointer(v.Pointer()), v.Len()*int(t.Elem().Size()))
+			n := v.Len()
+			if w.toCap {
+				n = v.Cap()
+			}
+			w.raw(unsafe.Pointer(v.Pointer()), n*int(t.Elem().Size()))
 			return
 		}
 		for i := 0; i < v.Len(); i++ {
@@ -160,6 +165,22 @@ func (w *fpWalker) walk(v reflect.Value) {
 	default:
 		w.skipped["kind:"+t.Kind().String()]++
 	}
+}
+
+// CapFingerprint is Fingerprint with pointer-free slices hashed up to their capacity: the spare
+// capacity behind a caller-owned slice is caller memory too (an append must not land there).
+func CapFingerprint(x interface{}) uint64 {
+	w := newWalker()
+	w.toCap = true
+	v := reflect.ValueOf(x)
+	if v.Kind() == reflect.Ptr && !v.IsNil() {
+		w.walk(v.Elem())
+	} else {
+		tmp := reflect.New(v.Type()).Elem()
+		tmp.Set(v)
+		w.walk(tmp)
+	}
+	return w.h.Sum64()
 }
 
 // LaxFingerprint is Fingerprint with nil and empty maps/slices hashing alike.
